@@ -44,6 +44,7 @@ type Obs struct {
 	Panic    any
 	StartSeq int64
 	EndSeq   int64
+	Goid     int64 // goroutine that issued the operation
 }
 
 // Runner executes histories against a provider built from a World's config.
@@ -71,6 +72,7 @@ func (r *Runner) addObs(o *Obs) {
 }
 
 func guard(o *Obs, f func()) {
+	o.Goid = Goid()
 	defer watch(fmt.Sprintf("%s(s%d,%s)", o.Kind, o.Scope, o.Ident))()
 	defer func() {
 		if p := recover(); p != nil {
